@@ -16,7 +16,7 @@ import (
 // "every store call is atomic" that the all-schedules theorems rest on.
 func freeRunning(r *core.Run) {
 	rd := r.Rand
-	for n := 0; n < r.N(12, 300); n++ {
+	for n := 0; n < r.N(12, 100); n++ {
 		kind := core.Pick(rd, StoreKinds)
 		st, cleanup := newStore(kind)
 		p, err := pseudonymization.NewPseudoanonymizer(st)
